@@ -5,7 +5,7 @@ For a random sample of mutants: scratch copy of /repo, apply, compile, run the r
 keep the suite green are run through the quick checks of the properties anchored in the mutated file. The report
 lists survivors of both (blind-spot candidates to adjudicate by hand: many are equivalent or outside every statement).
 
-  tools/auto_mutate.py --n 60 --seed 1 --out mutants/auto_report.json [--files handler.py,sensor.py]
+  tools/auto_mutate.py --n 60 --seed 1 --out /tmp/auto_report.json [--files handler.py,sensor.py]
 """
 import argparse
 import json
@@ -79,12 +79,17 @@ def main():
     ap = argparse.ArgumentParser()
     ap.add_argument("--n", type=int, default=40)
     ap.add_argument("--seed", type=int, default=1)
-    ap.add_argument("--out", default=os.path.join(V, "mutants", "auto_report.json"))
+    ap.add_argument("--out", default="/tmp/auto_report.json")
     ap.add_argument("--files")
     ap.add_argument("--workers", type=int, default=8)
     args = ap.parse_args()
     files = args.files.split(",") if args.files else FILES
     anc = anchors()
+    # work on one snapshot of the repository: candidates and mutants must refer to the same text even if /repo changes
+    global SRC
+    snap = tempfile.mkdtemp(prefix="vf-auto-base-")
+    shutil.copytree(SRC, os.path.join(snap, "repo"), ignore=shutil.ignore_patterns(".git", "__pycache__", "*.egg-info", ".pytest_cache"))
+    SRC = os.path.join(snap, "repo")
     cands = candidates(files)
     rng = random.Random(args.seed)
     rng.shuffle(cands)
@@ -133,6 +138,7 @@ def main():
     report["summary"] = s
     with open(args.out, "w") as fh:
         json.dump(report, fh, indent=1)
+    shutil.rmtree(snap, ignore_errors=True)
     print(s)
 
 
